@@ -328,7 +328,52 @@ func H_C03_large() {
 	vReach("c03-large")
 }
 
+// H_C03_limit: rows_limit counts only rows that produce output. Four rows a..d, each with one or
+// two cells; cells_per_row_offset(1) leaves the one-cell rows without output; rows_limit is any
+// non-negative int64. The result is the first rows_limit two-cell rows, in key order.
+func H_C03_limit() {
+	eng := vChoice("engine", 0, vBound("engines", 0, 1))
+	s := vNewServer(eng, func() bigtable.Timestamp { return 0 })
+	vCreateTable(s, "f")
+	keys := []string{"a", "b", "c", "d"}
+	var two []bool
+	for _, k := range keys {
+		t := vChoice("row.twocells", 0, 1) == 1
+		two = append(two, t)
+		cells := []*btpb.Cell{{TimestampMicros: 1000, Value: []byte("v")}}
+		if t {
+			cells = []*btpb.Cell{{TimestampMicros: 2000, Value: []byte("x")}, {TimestampMicros: 1000, Value: []byte("v")}}
+		}
+		s.tables[vTable].rows.ReplaceOrInsert(&btpb.Row{Key: []byte(k), Families: []*btpb.Family{{Name: "f",
+			Columns: []*btpb.Column{{Qualifier: []byte("q"), Cells: cells}}}}})
+	}
+	limit := vNondetInt64("rows_limit")
+	vAssume(limit >= 0)
+	st := &vReadStream{}
+	err := s.ReadRows(&btpb.ReadRowsRequest{TableName: vTable, RowsLimit: limit,
+		Filter: &btpb.RowFilter{Filter: &btpb.RowFilter_CellsPerRowOffsetFilter{CellsPerRowOffsetFilter: 1}}}, st)
+	vAssert(err == nil, "limit:ok")
+	rows, ok := vDecode(st.msgs)
+	vAssert(ok, "limit:stream-wellformed")
+	var want []string
+	for i, k := range keys {
+		if two[i] {
+			want = append(want, k)
+		}
+	}
+	n := int64(len(want))
+	expect := vIteInt64(vAnd(limit > 0, limit < n), limit, n)
+	vAssert(int64(len(rows)) == expect, "limit:first-N-rows-that-produce-output")
+	for j := range rows {
+		if j < len(want) {
+			vAssert(string(rows[j].key) == want[j] && len(rows[j].cells) == 1, "limit:rows-in-order-with-their-cells")
+		}
+	}
+	vReach("c03-limit")
+}
+
 func init() {
+	vHarnesses["H_C03_limit"] = H_C03_limit
 	vHarnesses["H_C03_merge"] = H_C03_merge
 	vHarnesses["H_C03_large"] = H_C03_large
 }
